@@ -940,10 +940,148 @@ def run_intern(case):
     obs = [o for o in (_intern_once(case, k) for k in ks) if o is not None]
     return {"n": n, "obs": obs}
 
+# ------------------------------------------------------------------ nsexp / nsvirt (model/RArgsRel.v)
+
+
+def make_export_cls(K, desc, codec):
+    """a subclass of the namespace class K overriding documented public methods other than
+    the constructor: as_dict() (entries added / reordered; every field stays exported under
+    its name with its value), or get_fields() + __repr__"""
+    kind = desc[0]
+    if kind == "plain":
+        return K
+    if kind == "other":
+        def get_fields(cls):
+            return dict(reversed(list(K.get_fields().items())))
+
+        def __repr__(self):
+            return "<namespace>"
+        body = {"get_fields": classmethod(get_fields), "__repr__": __repr__}
+    else:
+        extra = codec.dec(desc[1]) if len(desc) > 1 else None
+
+        def as_dict(self):
+            d = K.as_dict(self)                                   # super().as_dict()
+            if kind in ("rev", "addrev"):
+                d = dict(reversed(list(d.items())))
+            if kind in ("addfirst", "addrev"):
+                d = {"extra": extra, **d}
+            elif kind == "addlast":
+                d = {**d, "extra": extra}
+            return d
+        body = {"as_dict": as_dict}
+    return type(K)(uniq("Exp"), (K,), body)
+
+
+def _tables(objs):
+    return {"eq": [[bool(a == b) for b in objs] for a in objs],
+            "hash": [hash(a) for a in objs],
+            "find": [[{a: 1}.get(b) == 1 and b in {a} and b in [a] for b in objs] for a in objs]}
+
+
+def run_nsexp(case):
+    codec = ValCodec()
+    dec, enc = codec.dec, codec.enc
+    rcls, classes = [Renderable], [None]
+    for c, dfl in enumerate(case["cl"], 1):
+        R = RMeta(uniq(f"R{c}"), (rcls[-1],), {})
+        classes.append(make_args_cls(R, [dec(v) for v in dfl]))   # associated before subclassing
+        rcls.append(R)
+    made = {}
+    inst = []
+    for c, desc, vals in case["inst"]:
+        key = (c, repr(desc))
+        if key not in made:
+            made[key] = make_export_cls(classes[c], desc, codec)
+        inst.append(made[key](*[dec(v) for v in vals]))
+    routes = [
+        lambda R, P, x: RenderArgs(R, x),
+        lambda R, P, x: +x,
+        lambda R, P, x: RenderArgs(R) | x,
+        lambda R, P, x: RenderArgs(R).update(x),
+        lambda R, P, x: RenderArgs(P).convert(R).update(x),
+    ]
+    sets = []
+    for f in routes:
+        objs = [f(rcls[c], rcls[c - 1], x) for (c, _, _), x in zip(case["inst"], inst)]
+        ok = all(isinstance(o, RenderArgs) and o.render_cls is rcls[c] and o[rcls[c]] is x
+                 for (c, _, _), x, o in zip(case["inst"], inst, objs))
+        sets.append({**_tables(objs), "ok": ok})
+    return {"exports": [[enc(v) for v in x.as_dict().values()] for x in inst],
+            "fields": [[enc(getattr(x, f"f{j}")) for j in range(len(vals))] for (_, _, vals), x in zip(case["inst"], inst)],
+            "ns": _tables(inst), "sets": sets}
+
+
+def run_nsvirt(case):
+    par, own = case["par"], case["own"]
+    classes = [Renderable]
+    for c in range(1, len(par)):
+        R = RMeta(uniq(f"V{c}"), (classes[par[c]],), {})
+        if own[c]:
+            make_args_cls(R, [0])                                 # associated before subclassing
+        classes.append(R)
+    for b, k in case["reg"]:
+        classes[b].register(classes[k])                           # abc: a VIRTUAL subclass
+    index = {R: c for c, R in enumerate(classes)}
+
+    def keys_of(r):
+        return sorted((index.get(ns.get_render_cls(), 99) for ns in r), reverse=True)
+
+    def snapshot():
+        return [(id(RenderArgs(R)), [(id(ns), ns.as_dict()) for ns in RenderArgs(R)]) for R in classes]
+    before = snapshot()
+    keep = [RenderArgs(R) for R in classes]                       # keeps the ids meaningful
+    init_family = case.get("family") == "init"
+    probes = []
+    for route, t, c in case["probes"]:
+        T, C = classes[t], classes[c]
+        ns = C.Args(7)
+        base = RenderArgs(T)
+        try:
+            if init_family:
+                init = RenderArgs(C, ns)
+                own_t = next((K for K in T.__mro__ if K in index and own[index[K]]), None)
+                base = init
+                if route == 0:
+                    r = RenderArgs(T, init)
+                elif route == 1 and own_t is not None:
+                    given = own_t.Args(5)
+                    r = RenderArgs(T, init, given)
+                else:
+                    r = init.convert(T)
+            elif route == 0:
+                r = RenderArgs(T, ns)
+            elif route == 1:
+                r = RenderArgs(T, None, ns)
+            elif route == 2:
+                own_t = next((K for K in T.__mro__ if K in index and own[index[K]]), None)
+                base = RenderArgs(T, own_t.Args(5)) if own_t is not None else RenderArgs(T)
+                r = RenderArgs(T, base, ns)
+            elif route == 3:
+                r = ns.to_render_args(T)
+            else:
+                r = RenderArgs(T).update(ns)
+        except Exception as e:  # noqa: BLE001
+            probes.append({"res": 1 + err_code(e), "keys": [], "val": False, "issub": issubclass(T, C)})
+            continue
+        dflt = RenderArgs(T)
+        held = list(r)
+        if init_family:
+            val = all(x is (given if route == 1 and own_t is not None and x.get_render_cls() is own_t
+                            else base[x.get_render_cls()] if x.get_render_cls() in [y.get_render_cls() for y in base]
+                            else dflt[x.get_render_cls()]) for x in held)
+        else:
+            val = all((x is ns) if x.get_render_cls() is C else (x is base[x.get_render_cls()]) for x in held) and any(x is ns for x in held)
+        probes.append({"res": 0, "keys": keys_of(r), "val": bool(val), "issub": issubclass(T, C)})
+    after = snapshot()
+    del keep
+    return {"probes": probes, "keys0": [keys_of(RenderArgs(R)) for R in classes], "unchanged": before == after}
+
 
 def run_case(case):
     return {"prog": run_prog, "stmt": run_stmt, "ctor": run_ctor, "rend": run_rend,
-            "nsprog": run_nsprog, "nssub": run_nssub, "intern": run_intern}[case["type"]](case)
+            "nsprog": run_nsprog, "nssub": run_nssub, "intern": run_intern,
+            "nsexp": run_nsexp, "nsvirt": run_nsvirt}[case["type"]](case)
 
 
 if __name__ == "__main__":
